@@ -272,7 +272,7 @@ def _diag_lines(r):
             continue
         if s.startswith("==") and ("Sanitizer" in s or not s.strip("=")):
             continue
-        if re.match(r"#\d+ 0x", s):
+        if re.match(r"#\d+ 0x", s) or "runtime error:" in s:
             continue
         if s.startswith("VERIF") or s.startswith("NLVGDB") or s.startswith("AddressSanitizer") or s.startswith("UndefinedBehaviorSanitizer"):
             continue
